@@ -170,18 +170,22 @@ def _der_task(ctx, kinds):
 
 
 def task_der_XX_x(ctx):
+    """O1: every X-X entry of der_TETCILF's w_x, x component, is d/dX_i of the molecular-frame integral the energy routines produce (symbolic differentiation of the energy routine's own output)."""
     _der_task(ctx, {"XX": [0]})
 
 
 def task_der_XX_y(ctx):
+    """O1, y component (see der_XX_x)."""
     _der_task(ctx, {"XX": [1]})
 
 
 def task_der_XX_z(ctx):
+    """O1, z component (see der_XX_x)."""
     _der_task(ctx, {"XX": [2]})
 
 
 def task_der_XH_HH(ctx):
+    """O1 for the X-H (30 entries) and H-H (3 entries) pair kinds."""
     _der_task(ctx, {"XH": True, "HH": True})
 
 
@@ -388,10 +392,12 @@ def _contraction(ctx, padded):
 
 
 def task_contraction(ctx):
+    """O4: the Dewar-Yamaguchi contraction of the analytical gradient equals d/dX of the real elec_energy(P, fock(P)) at fixed density (dense batch)."""
     _contraction(ctx, False)
 
 
 def task_contraction_padded(ctx):
+    """O4 on a zero-padded batch (padding slots contribute nothing)."""
     _contraction(ctx, True)
 
 
